@@ -30,6 +30,7 @@ type v10Source struct {
 	processed  int32
 	frame      int
 	tick       chan struct{}
+	procCh     chan struct{} // a token per processed block (never blocks the core loop)
 	writeDir   string // if set, writing is switched on inside StartRun (before the core loop exists)
 	behave     bool   // restart phase: the source runs normally
 }
@@ -40,6 +41,7 @@ func v10New(mode string, nblocks int, failStep string) *v10Source {
 	s.name = "verif-scripted"
 	s.sampleRate = 1000
 	s.samplePeriod = vPeriod
+	s.procCh = make(chan struct{}, 64)
 	s.tick = make(chan struct{})
 	close(s.tick) // a tick is always available: whether tick or abort wins is a scheduling choice
 	return s
@@ -69,6 +71,10 @@ func (s *v10Source) PrepareRun(npre, nsamp int) error {
 func (s *v10Source) ProcessSegments(b *dataBlock) error {
 	err := s.AnySource.ProcessSegments(b)
 	atomic.AddInt32(&s.processed, 1)
+	select {
+	case s.procCh <- struct{}{}:
+	default:
+	}
 	return err
 }
 
@@ -305,25 +311,36 @@ func (sc v10Scenario) run(x *vexp.X, dir string) vexp.Result {
 	}
 	if viol == "" {
 		// repeatable: the same source object can be started again and delivers (free-running now)
-		before := atomic.LoadInt32(&src.processed)
+		// (again under the scheduler, canonical schedule, so that "never delivers" is a deadlock verdict
+		// and not a wall-clock time-out)
 		src.behave = true
 		src.writeDir = ""
-		if err := Start(src, queued, 3, 6); err != nil {
-			fail("restart-error", "Start on the stopped source returned %v", err)
-		} else {
-			dl := time.Now().Add(3 * time.Second)
-			for atomic.LoadInt32(&src.processed) == before && time.Now().Before(dl) {
-				time.Sleep(50 * time.Microsecond)
+		for len(src.procCh) > 0 {
+			<-src.procCh
+		}
+		var rerr, serr error
+		var st2 SourceState
+		s2 := vhook.Run(&vexp.X{}, vhook.Options{MaxSteps: 400, Names: []string{"restart"}}, func() {
+			if rerr = Start(src, queued, 3, 6); rerr != nil {
+				return
 			}
-			if atomic.LoadInt32(&src.processed) == before {
-				fail("restart-delivers-nothing", "restarted source processed no block within 3 s")
-			}
-			if err := src.Stop(); err != nil {
-				fail("restart-stop-error", "Stop after restart returned %v", err)
-			}
-			if st := src.GetState(); st != Inactive {
-				fail("not-inactive", "after restart+Stop the state is %v", st)
-			}
+			<-src.procCh // a block has been processed
+			serr = src.Stop()
+			st2 = src.GetState()
+		})
+		o2 := s2.Outcome()
+		s2.Release(2 * time.Second)
+		switch {
+		case o2.PanicClass != "":
+			fail(o2.PanicClass, "restart panicked: %s", o2.PanicText)
+		case rerr != nil:
+			fail("restart-error", "Start on the stopped source returned %v", rerr)
+		case o2.Deadlock || o2.Horizon:
+			fail("restart-delivers-nothing", "the restarted source never processed a block (or its Stop never returned): %v", o2.Blocked)
+		case serr != nil:
+			fail("restart-stop-error", "Stop after restart returned %v", serr)
+		case st2 != Inactive:
+			fail("not-inactive", "after restart+Stop the state is %v", st2)
 		}
 	}
 	src.numberWrittenTicker.Stop()
